@@ -58,6 +58,23 @@ func (pr *printer) probe(what, expr string) string {
 	return fmt.Sprintf("rt.Arg(h, %d, %s)", k, expr)
 }
 
+// host returns what is written before and after the directive call: the call
+// is the right-hand side of an assignment, or the result of a function literal
+// that is called on the spot, or of one handed to a local helper - a directive
+// can sit anywhere an expression can.
+func (pr *printer) host(sel uint64, call string) (open, close string) {
+	if pr.p.ModifierOK {
+		sel = 0
+	}
+	switch sel % 5 {
+	case 1:
+		return "\terr = func() error {\n\t\treturn " + call, "\n\t}()\n"
+	case 2:
+		return "\thostRun := func(f func() error) error { return f() }\n\terr = hostRun(func() error {\n\t\treturn " + call, "\n\t})\n"
+	}
+	return "\terr = " + call, "\n"
+}
+
 // probeAlways is a numbered probe on an operand inside an argument; when the
 // program does not wrap its arguments it is the bare expression.
 func (pr *printer) probeAlways(what, expr string) string {
@@ -659,6 +676,11 @@ func (pr *printer) flow(f *FlowP) string {
 				opts = append(opts, func() string {
 					var a []string
 					for k, o := range t.Out {
+						if t.FBNil {
+							pr.nargs++
+							a = append(a, "nil")
+							continue
+						}
 						val := fmt.Sprintf("%s(%d)", pr.mk(f.Types, o), FBVal(pr.p.ID, t.ID, k))
 						if (t.ID+k)%2 == 0 {
 							// the fallback value lives in a variable of the caller, which
@@ -708,7 +730,8 @@ func (pr *printer) flow(f *FlowP) string {
 		}
 	}
 	var dir strings.Builder
-	dir.WriteString("\terr = cff.Flow(" + pr.probe("ctx", "ctx"))
+	open, close := pr.host(uint64(f.OptSeed)>>17, "cff.Flow(")
+	dir.WriteString(open + pr.probe("ctx", "ctx"))
 	seenInstrFlow := false
 	for _, it := range items {
 		if it.instrFlow {
@@ -719,7 +742,7 @@ func (pr *printer) flow(f *FlowP) string {
 		}
 		dir.WriteString(",\n\t\t" + it.render())
 	}
-	dir.WriteString(",\n\t)\n")
+	dir.WriteString(",\n\t)" + close)
 	fb.WriteString(pre.String())
 	fb.WriteString(dir.String())
 	fb.WriteString(post.String())
@@ -969,11 +992,12 @@ func (pr *printer) par(p *ParP) string {
 			pr.errAt, pr.errWhat = 0, "concurrency"
 		}
 	}
-	fb.WriteString("\terr = cff.Parallel(" + pr.probe("ctx", "ctx"))
+	open, close := pr.host(uint64(p.OptSeed)>>17, "cff.Parallel(")
+	fb.WriteString(open + pr.probe("ctx", "ctx"))
 	for _, it := range items {
 		fb.WriteString(",\n\t\t" + it.render())
 	}
-	fb.WriteString(",\n\t)\n")
+	fb.WriteString(",\n\t)" + close)
 	// the caller owns its collections again once the directive has returned (also when it
 	// returned early and element functions are still running): it clears them for reuse
 	for i := range p.Colls {
